@@ -60,6 +60,14 @@ def lattice_cases(thorough):
     for fn in ("map", "histogram2d"):
         for bits in itertools.product([False, True], repeat=6):
             yield {"kind": "two_layers", "fn": fn, "setting": dict(zip(["norm_call", "norm_l0", "norm_l1", "vmin_call", "vmin_l0", "vmin_l1"], bits))}
+    # several layers of different modes in every order (a scatter overlay may come first): each layer's own operation wins
+    kinds = list(LAYER_KINDS)
+    for n in (1, 2, 3):
+        for seq in itertools.permutations(kinds, n):
+            if all(LAYER_KINDS[k][1] == "scatter" for k in seq):
+                continue
+            for call_op in (None, "sum"):
+                yield {"kind": "layer_order", "fn": "map", "setting": {"layers": list(seq), "call_operation": call_op}}
     for bins in ("neither", "layer", "call", "both"):
         for weights in ("neither", "layer", "call", "both"):
             for extra in ("neither", "layer", "call", "both"):
@@ -214,6 +222,71 @@ def run_two_layers(acc, idx, c):
     return out
 
 
+# kind -> (variable, mode, layer-level operation)
+LAYER_KINDS = {
+    "image-mean": ("density", None, "mean"),
+    "image-nanmax": ("mass", None, "nanmax"),
+    "image-plain": ("density", "contourf", None),
+    "scatter": ("mass", "scatter", None),
+    "vec-mean": ("velocity", "vec", "mean"),
+}
+_REF = {}
+
+
+def _order_map(layers, op):
+    import osyris
+
+    kw = {} if op is None else {"operation": op}
+    with quiet(), warnings.catch_warnings(), np.errstate(all="ignore"):
+        warnings.simplefilter("ignore")
+        return osyris.map(*layers, direction="z", dx=1.0 * osyris.units("cm"), dz=0.5 * osyris.units("cm"),
+                          origin=osyris.Vector(0.5, 0.5, 0.5, unit="cm"), resolution={"x": 2, "y": 2, "z": 2}, plot=False, **kw)
+
+
+def run_layer_order(acc, idx, c):
+    st = c["setting"]
+
+    def layer(kind, with_op=True):
+        var, mode, op = LAYER_KINDS[kind]
+        kw = {}
+        if mode:
+            kw["mode"] = mode
+        if op and with_op:
+            kw["operation"] = op
+        return make_mesh().layer(var, **kw)
+
+    try:
+        p = _order_map([layer(k) for k in st["layers"]], st["call_operation"])
+    except Exception as e:
+        acc.violation(f"C19:map-layer-order-raised:{type(e).__name__}", idx, c, {"error": repr(e)[:200]})
+        return "raises"
+    shown = [k for k in st["layers"] if LAYER_KINDS[k][1] != "scatter"]
+    if len(p.layers) != len(shown):
+        acc.violation("C19:map:layer-order:number-of-rendered-layers", idx, c, {"got": len(p.layers), "expected": len(shown)})
+        return "violation"
+    out = "ok"
+    first_scatter = LAYER_KINDS[st["layers"][0]][1] == "scatter"
+    for pos, k in enumerate(shown):
+        eff = LAYER_KINDS[k][2] or st["call_operation"]
+        key = (k, eff)
+        if key not in _REF:
+            # reference: the layer alone, its effective operation given at call level only
+            r = _order_map([layer(k, with_op=False)], eff)
+            _REF[key] = (np.ma.filled(r.layers[0]["data"], np.nan), str(r.layers[0].get("unit")), r.layers[0]["mode"])
+        a = np.ma.filled(p.layers[pos]["data"], np.nan)
+        b, unit, mode = _REF[key]
+        if a.shape != b.shape or not np.array_equal(a, b, equal_nan=True) or str(p.layers[pos].get("unit")) != unit:
+            where = "after-a-scatter-layer" if first_scatter else "image-layers-first"
+            acc.violation(f"C19:map:layer-order:operation-of-layer-not-honoured:{where}", idx, c,
+                          {"layer": k, "position": pos, "effective_operation": eff, "got": a.tolist(), "expected": b.tolist(),
+                           "unit": str(p.layers[pos].get("unit")), "expected_unit": unit})
+            out = "violation"
+        if p.layers[pos]["mode"] != mode:
+            acc.violation("C19:map:layer-order:mode-of-layer-not-honoured", idx, c, {"layer": k, "got": p.layers[pos]["mode"], "expected": mode})
+            out = "violation"
+    return out
+
+
 def run_hist1d(acc, idx, c):
     import matplotlib.pyplot as plt
     import osyris
@@ -267,8 +340,8 @@ def lattice_work(payload):
     acc = Acc()
     thorough = payload["tier"] == "thorough"
     for idx, c in my_share(lattice_cases(thorough), payload):
-        out = {"lattice": run_lattice, "two_layers": run_two_layers, "hist1d": run_hist1d}[c["kind"]](acc, idx, c)
-        nset = sum(1 for v in c["setting"].values() if v not in ("neither", False))
+        out = {"lattice": run_lattice, "two_layers": run_two_layers, "hist1d": run_hist1d, "layer_order": run_layer_order}[c["kind"]](acc, idx, c)
+        nset = sum(1 for v in c["setting"].values() if v not in ("neither", False, None))
         acc.case(nontrivial=nset > 0, outcome=out)
         if idx % 401 == 0:
             acc.sample(c)
@@ -462,8 +535,8 @@ def run(ctx):
 
 
 def replay_sigs(case):
-    if case.get("kind") in ("lattice", "hist1d", "two_layers"):
+    if case.get("kind") in ("lattice", "hist1d", "two_layers", "layer_order"):
         acc = Acc()
-        {"lattice": run_lattice, "two_layers": run_two_layers, "hist1d": run_hist1d}[case["kind"]](acc, 0, case)
+        {"lattice": run_lattice, "two_layers": run_two_layers, "hist1d": run_hist1d, "layer_order": run_layer_order}[case["kind"]](acc, 0, case)
         return list(acc.violations.keys())
     return [s for s, _ in history.replay_case(case)]
